@@ -6,26 +6,46 @@ import os
 import core
 from core import LeanDriver, err_kind, canon
 from gen import delegconsts
+from gen import fields as genfields
 
 ID = "C12"
-GENERATORS = [delegconsts.generate]
+# Generated/Fields.lean (C03's class specifications of Capacities / Labels) is what the details of a delegation are
+# modelled on: regenerate it in a C12 run too
+def gen_delegconsts():
+    return delegconsts.generate()
+
+
+def gen_fields():
+    return genfields.generate()
+
+
+GENERATORS = [gen_delegconsts, gen_fields]
 LEAN_MODULES = ["FimVerif.Proofs.C12"]
 P = "FimVerif.C12."
 THEOREMS = [P + t for t in (
-    "delegations_roundtrip_partial", "delegations_roundtrip_counterexample", "det_roundtrip",
+    "delegations_roundtrip", "reserved_name_rejected", "constructed_pool_name", "det_roundtrip",
     "rejects_mixed_details", "rejects_mixed_container", "rejects_mixed_in_call", "rejects_mixed_pools", "decode_rejects_other_type",
     "add_delegations_accepts_iff", "rejects_duplicate_id", "rejects_duplicate_in_call", "rejects_duplicate_across_calls",
     "add_delegations_state", "rejects_details_on_reference", "decode_rejects_details_on_reference",
-    "generate_ok_of_noClash", "generate_rejects_clash", "incorporate_entries", "pools_roundtrip",
-    "pools_roundtrip_text_partial", "pools_roundtrip_text_counterexample")]
+    "generate_ok_of_noClash", "generate_rejects_clash", "incorporate_any_arrangement", "incorporate_entries", "pools_roundtrip",
+    "pools_roundtrip_any_order", "pools_roundtrip_text",
+    # details = the C03 model of Capacities / Labels: the codec hypothesis discharged from C03's theorems
+    "dict_roundtrip", "detOk_real", "delegations_roundtrip_real", "pools_roundtrip_text_real", "capReal_real", "labReal_real",
+    # what the API can construct: invariants over all histories of calls
+    "built_inv", "reachable_inv", "delegations_roundtrip_api", "delegations_roundtrip_api_real", "family_of_buildPools",
+    "generate_rejects_mixed_pool_details")]
 TRUSTED_BASE = [
-    "gen/delegconsts.py: key/sentinel constants by import; AST checks that to_json/from_json reference exactly these constants, "
-    "that from_json dispatches on FIELD_POOL_ID before FIELD_POOL and that to_json has one branch per DelegationFormat member",
+    "gen/delegconsts.py: key/sentinel constants by import; the strings to_json/from_json (and the module functions they call) can use "
+    "as keys, resolved by value through any alias, are exactly these constants; behavioural probes of the dispatch (to_json writes the "
+    "model's keys for every DelegationFormat member, from_json looks at FIELD_POOL_ID before FIELD_POOL, sentinels)",
+    "gen/fields.py (C03's translator): field lists, defaults, _set_fields guard and to_dict drop rule of Capacities / Labels",
     "Model/Deleg.lean mirrors by hand Delegation/Delegations/Pool/Pools (constructor, set_details, add_delegations, to_json, from_json, "
     "add_pool, validate_pool, build_index_by_delegation_id, generate_delegations_by_node_id, incorporate_delegation); checked differentially",
     "json.dumps/json.loads are the identity on the JSON value handed over (objects = insertion-ordered dicts); JSON text is not modelled",
-    "details are abstract in the theorems (kindOf/toDict/fromDict with the C03 round trip as hypothesis); the driver's concrete details "
-    "model Capacities(**kw)/Labels(**kw)/to_dict without the label value validators (regex/range: C16's subject)",
+    "details: abstract in the generic theorems (kindOf/toDict/fromDict, the details' own round trip as hypothesis DetOk); the _real theorems "
+    "and the driver use the C03 model of Capacities(**kw)/Labels(**kw)/to_dict (Model/Codec.lean on the regenerated class specifications) "
+    "and discharge DetOk from C03's losslessness theorems; the label value validators (regex/range: C16's subject) are the abstract "
+    "predicate `valid` in the theorems and accept-all in the driver",
     "Python sets (Pool.for_) are duplicate-free lists; dict iteration order = insertion order",
 ]
 ASSUMPTIONS = [
@@ -33,6 +53,7 @@ ASSUMPTIONS = [
     "a Pool is not mutated between build_index_by_delegation_id and generate_delegations_by_node_id, and incorporate_delegation "
     "is applied to a Pools whose by-delegation index has not been built (the index aliases the pool objects)",
     "label values offered to the model are ones the Labels validators accept",
+    "a Delegation object is not mutated after it was handed to add_delegations (the container aliases it; the model stores values)",
 ]
 RULE = ("delegation sets of 1..5 entries over 4 ids x 3 formats x capacity/label details (edge ints, validated and free label strings, lists), "
         "built through the API and decoded from mutated JSON; pool families of 1..4 pools x 5 nodes x 3 delegation ids through both "
@@ -41,6 +62,7 @@ RULE = ("delegation sets of 1..5 entries over 4 ids x 3 formats x capacity/label
 
 CORPUS = os.path.join(core.CORPUS_DIR, "C12")
 TYPES = ["CAPACITY", "LABEL"]
+FORMATS = ["SinglePool", "PoolDefinition", "PoolReference"]
 EDGE = [0, 1, 1, 2, 3, 8, 100, 4096, 2 ** 31, 2 ** 63, 2 ** 64 + 1, 10 ** 30]
 LABEL_OK = {
     "bdf": ["0000:25:00.1", "00a1:41:00.0"], "mac": ["00:11:22:33:44:55", "04:3F:72:B7:19:5C"], "ipv4": ["192.168.1.1", "10.0.0.254"],
@@ -186,6 +208,37 @@ def eff_for(p):
     return nodes
 
 
+class GraphStub:
+    """stands in for the ARM graph in annotate_delegations_and_pools: records the property writes"""
+    graph_id = "stub-graph"
+
+    def __init__(self):
+        self.writes = []
+
+    def update_node_property(self, *, node_id, prop_name, prop_val):
+        assert node_id is not None and prop_name is not None and prop_val is not None
+        self.writes.append((node_id, prop_name, prop_val))
+
+
+def annotate_writes(ps, dels):
+    """ABCARMPropertyGraph.annotate_delegations_and_pools on a recording graph: [type whose property was written, [[node, value]...]]"""
+    from fim.graph.resources.abc_arm import ABCARMPropertyGraph
+    dm, cl, K = mods()
+    g = GraphStub()
+    ABCARMPropertyGraph.annotate_delegations_and_pools(g, dels=dels, pools=ps)
+    inv = {v: k.name for k, v in ABCARMPropertyGraph.DELEGATION_TYPE_TO_PROP.items()}
+    props = sorted({inv.get(p, "?" + str(p)) for _, p, _ in g.writes})
+    if len(props) > 1:
+        return ["mixed-properties", props]
+    # the order of the writes follows the iteration order of Pool.for_ (a set): compare sorted by node
+    return [props[0] if props else ps.get_type().name, sorted([n, to_wire(json.loads(v))] for n, _, v in g.writes)]
+
+
+def node_order(order, nodes):
+    """the nodes of a generated dictionary in the requested order: the listed ones first (as often as listed), the rest sorted"""
+    return [n for n in order if n in nodes] + sorted(n for n in nodes if n not in order)
+
+
 def impl_eval(req):
     dm, cl, K = mods()
     op, cty, x = req
@@ -210,6 +263,19 @@ def impl_eval(req):
             for n, ds in back:
                 q.incorporate_delegation(node_id=n, deleg=ds)
             return ["ok", pools_canon(q, cl)]
+        if op == "prto":
+            r = build_family(cty, x["fam"], dm, cl).generate_delegations_by_node_id()
+            back = {n: dm.Delegations.from_json(json_str=ds.to_json(), atype=T) for n, ds in r.items()}
+            q = dm.Pools(atype=T)
+            for n in node_order(x["order"], back):
+                q.incorporate_delegation(node_id=n, deleg=back[n])
+            return ["ok", pools_canon(q, cl)]
+        if op == "ann":
+            ps = build_family(cty, x["fam"], dm, cl)
+            dels = {}
+            for node, c, specs in x["dels"]:
+                dels[node] = build_delegs(c, specs, dm, cl)
+            return ["ok", annotate_writes(ps, dels)]
         if op == "calls":
             ds, err = dm.Delegations(atype=T), None
             for call in x:
@@ -360,6 +426,21 @@ def corner_dspecs():
         out.append((cty, [dict(three[0], det=None)]))
         out.append((cty, [dict(three[1], pool=None)]))
         out.append((cty, []))
+        # every order of the three formats / of two of them: a single-resource delegation read after a definition or a
+        # reference must not inherit anything from it (cf. seeded C12-r3-1), nor the other way round
+        import itertools
+        mk = {"SinglePool": lambda i: dict(three[0], id="s%d" % i), "PoolDefinition": lambda i: dict(three[1], id="d%d" % i, pool="pool%d" % i),
+              "PoolReference": lambda i: dict(three[2], id="r%d" % i, pool="ref%d" % i)}
+        for perm in itertools.permutations(FORMATS):
+            out.append((cty, [mk[f](i) for i, f in enumerate(perm)]))
+        for a, b in itertools.product(FORMATS, FORMATS):
+            out.append((cty, [mk[a](0), mk[b](1)]))
+        out.append((cty, [mk["PoolDefinition"](0), mk["SinglePool"](1), mk["PoolReference"](2), mk["SinglePool"](3), mk["SinglePool"](4)]))
+        # empty details (Capacities() / Labels(): to_dict() is None) on a single / a definition
+        e = [cty, to_wire({})]
+        out.append((cty, [dict(three[0], det=e)]))
+        out.append((cty, [dict(three[1], det=e), dict(three[0])]))
+        out.append((cty, [dict(three[0]), dict(three[1], det=[cty, to_wire({"core": 0} if cty == "CAPACITY" else {})])]))
     return out
 
 
@@ -382,13 +463,18 @@ def mutate_json(rng, obj, cty, K):
             v[K.FIELD_POOL] = rng.choice(POOL_NAMES)             # both pool_id and pool
     elif k < 0.42:
         v[ok_] = un_wire(gen_det(rng, other(cty))[1])            # the other type's content next to ours
-    elif k < 0.50:
+    elif k < 0.47:
         for kk in (K.FIELD_POOL_ID, K.FIELD_POOL):
             if kk in v:
                 v[kk] = None
+    elif k < 0.50:
+        if K.FIELD_POOL in v:
+            v[K.FIELD_POOL] = K.SINGLE_POOL_NAME        # a reference to the reserved name
+        else:
+            v[dk] = {}                                   # empty details
     elif k < 0.60:
         if dk in v:
-            v[dk] = rng.choice([5, None, "x", [], [1]])
+            v[dk] = rng.choice([5, None, "x", [], [1], {}])
     elif k < 0.72:
         if dk in v:
             v[dk] = un_wire(gen_bad_det(rng, cty)[1])
@@ -475,6 +561,10 @@ def corner_pspecs():
             (cty, [pool("pool1", "del1", "node1", ["node3"]), pool("pool2", "del1", "node2", ["node3"], d2)]),
             # defining node also listed as reference node through the setters (clash with itself)
             (cty, [pool("pool1", "del1", "node1", ["node1", "node2"], mode="set")]),
+            # three pools sharing defining and reference nodes (cf. seeded C12-r3-3; Lean `sharedEx`)
+            (cty, [pool("pa", "d1", "n1", ["n2", "n3"]), pool("pb", "d2", "n2", ["n3", "n1"], d2), pool("pc", "d3", "n1", ["n3", "n2"])]),
+            # one node defines several pools and references several others
+            (cty, [pool("pa", "d1", "n1", ["n2"]), pool("pb", "d2", "n1", ["n2"], d2), pool("pc", "d3", "n2", ["n1"]), pool("pd", "d4", "n2", ["n1"], d2)]),
             (cty, [pool("_", "del1", "node1", ["node2"])]),
             (cty, [pool("pool1", "del1", "node1", ["node2"], det=None)]),
             (cty, [pool("pool1", None, "node1", ["node2"])]),
@@ -539,6 +629,33 @@ def gen_inc(rng, cty):
     if rng.random() < 0.3:
         rng.shuffle(nodes)
     return nodes
+
+
+def gen_ann(rng, cty):
+    """a pool family plus the per-node single-resource delegations single_delegation hands to annotate_delegations_and_pools"""
+    fam = gen_pspecs(rng, cty, wellformed=rng.random() < 0.75)
+    used = {p["on"] for p in fam} | {n for p in fam for n in p["for"]}
+    for p in fam:
+        for op in p.get("forops", []):
+            used |= set([op[1]] if isinstance(op[1], str) else op[1])
+    free = [n for n in NODES + ["n6", "n7"] if n not in used]
+    dels = []
+    did = rng.choice(["del1", "primary"])
+    for n in rng.sample(free, rng.randint(0, len(free))):
+        dels.append([n, cty, [{"ty": cty, "id": did, "fmt": "SinglePool", "pool": None, "det": gen_det(rng, cty, allow_empty=rng.random() < 0.1)}]])
+    r = rng.random()
+    if r < 0.12 and used:
+        # a node that also carries pool entries
+        dels.insert(rng.randint(0, len(dels)), [rng.choice(sorted(u for u in used if u)), cty,
+                                                 [{"ty": cty, "id": did, "fmt": "SinglePool", "pool": None, "det": gen_det(rng, cty, allow_empty=False)}]])
+    elif r < 0.18 and dels:
+        dels[-1][1] = other(cty)                         # delegations of the other type handed over with these pools
+        for s_ in dels[-1][2]:
+            s_["ty"] = other(cty)
+            s_["det"] = gen_det(rng, other(cty), allow_empty=False)
+    elif r < 0.24 and dels:
+        dels[0][2] = gen_dspecs(rng, cty, wellformed=True)   # not only single-resource delegations
+    return {"fam": fam, "dels": dels}
 
 
 def call_arg(cty, ident, k, ty=None):
@@ -622,6 +739,10 @@ def nontrivial(req):
         return isinstance(x, dict) and "o" in x and len(x["o"]) >= 2
     if op in ("pools", "prt"):
         return any(len((eff_for(p) or set()) - {p["on"]}) >= 2 for p in x)
+    if op == "prto":
+        return any(len((eff_for(p) or set()) - {p["on"]}) >= 2 for p in x["fam"])
+    if op == "ann":
+        return len(x["fam"]) >= 1 and len(x["dels"]) >= 1
     if op == "calls":
         return sum(len(c) for c in x) >= 2
     if op == "pseq":
@@ -650,9 +771,23 @@ def gen_requests(ctx, n_sets, n_fams):
     for cty, specs in corner_dspecs():
         for op in ("build", "enc", "rt"):
             reqs.append([op, cty, specs])
+    import itertools
     for cty, fam in corner_pspecs():
         reqs.append(["pools", cty, fam])
         reqs.append(["prt", cty, fam])
+        nodes = sorted({p["on"] for p in fam if p["on"]} | {n for p in fam for n in p["for"]})
+        if 2 <= len(nodes) <= 3:
+            # every order in which the nodes can be read back
+            for perm in itertools.permutations(nodes):
+                reqs.append(["prto", cty, {"fam": fam, "order": list(perm)}])
+        elif nodes:
+            reqs.append(["prto", cty, {"fam": fam, "order": list(reversed(nodes))}])
+    for cty, fam in corner_pspecs():
+        c = ["CAPACITY", to_wire({"core": 4})] if cty == "CAPACITY" else ["LABEL", to_wire({"local_name": "eth0"})]
+        one = lambda n, t=cty, d=c: [n, t, [{"ty": t, "id": "del1", "fmt": "SinglePool", "pool": None, "det": d}]]
+        reqs.append(["ann", cty, {"fam": fam, "dels": [one("x1"), one("x2")]}])
+        reqs.append(["ann", cty, {"fam": fam, "dels": []}])
+        reqs.append(["ann", cty, {"fam": fam, "dels": [one("x1"), one("node1"), one("n1")]}])     # node1 / n1 carry pool entries
     for cty in TYPES:
         for shape in call_shapes():
             reqs.append(["calls", cty, shape_calls(cty, shape)])
@@ -693,7 +828,16 @@ def gen_requests(ctx, n_sets, n_fams):
         reqs.append(["prt", cty, fam])
         if i % 2 == 0:
             reqs.append(["pools", cty, fam])
+        order = list(NODES)
+        rng.shuffle(order)
+        if rng.random() < 0.05:
+            order.append(rng.choice(order))       # a node handed over twice
+        elif rng.random() < 0.2:
+            order = order[:rng.randint(0, 4)]
+        reqs.append(["prto", cty, {"fam": fam, "order": order}])
         reqs.append(["inc", cty, gen_inc(rng, cty)])
+        if i % 2 == 1:
+            reqs.append(["ann", cty, gen_ann(rng, cty)])
     return reqs
 
 
@@ -727,7 +871,7 @@ def correspondence(ctx, res):
             continue
         if json.loads(canon(i)) != mj:
             res.disagreements.append({"case": r, "impl": i, "model": mj})
-    k = next((j for j, r in enumerate(reqs) if r[0] == "prt" and impl[j][0] == "ok" and nontrivial(r)), 0)
+    k = next((j for j, r in enumerate(reqs) if r[0] == "prto" and impl[j][0] == "ok" and nontrivial(r)), 0)
     res.sample({"request": reqs[k], "impl": impl[k], "model": json.loads(model[k])})
     k = next((j for j, r in enumerate(reqs) if r[0] == "dec" and impl[j][0] == "err"), 0)
     res.sample({"request": reqs[k], "impl": impl[k], "model": json.loads(model[k])})
@@ -758,8 +902,21 @@ def check_codec(cty, specs, res):
     dm, cl, K = mods()
     T = dm.DelegationType[cty]
     case = {"kind": "codec", "cty": cty, "specs": specs}
+    reserved = [s_ for s_ in specs if s_["fmt"] != "SinglePool" and s_["pool"] == K.SINGLE_POOL_NAME]
     try:
         ds = build_delegs(cty, specs, dm, cl)
+    except dm.DelegationException as e:
+        if reserved:
+            # the name that marks a single-resource delegation in the text cannot name a pool: refusing to construct such a
+            # delegation is the repaired behaviour (/repo ac819ce); had it been constructed, it would have to round trip (below)
+            res.count("codec:reserved-pool-name-rejected")
+            return
+        res.violation("C12:codec:raises:%s" % err_kind(e), "well-formed delegation set cannot be built: %s" % e, case)
+        return
+    except Exception as e:
+        res.violation("C12:codec:raises:%s" % err_kind(e), "well-formed delegation set cannot be built: %s" % e, case)
+        return
+    try:
         snap = delegs_canon(ds, cl)
         text = ds.to_json()
         back = dm.Delegations.from_json(json_str=text, atype=T)
@@ -872,6 +1029,63 @@ def check_rejections(cty, det, odet, res):
         res.violation("C12:reject:mixed-pool-details:" + cty, "pool with details of the other kind turned into delegations", case)
 
 
+def check_reserved(cty, res):
+    """the name that marks a single-resource delegation in the text (SINGLE_POOL_NAME) on a pool: every way of getting such
+    a pool / pool delegation is either refused (DelegationException / PoolException) or the object survives the round trip"""
+    dm, cl, K = mods()
+    T, F = dm.DelegationType[cty], dm.DelegationFormat
+    R = K.SINGLE_POOL_NAME
+    det = ["CAPACITY", to_wire({"core": 2})] if cty == "CAPACITY" else ["LABEL", to_wire({"vlan": "3"})]
+    for fmt in ("PoolDefinition", "PoolReference"):
+        spec = {"ty": cty, "id": "a", "fmt": fmt, "pool": R, "det": det if fmt == "PoolDefinition" else None}
+        case = {"kind": "codec", "cty": cty, "specs": [spec]}
+        try:
+            ds = build_delegs(cty, [spec], dm, cl)
+        except dm.DelegationException:
+            res.count("reserved:%s:rejected" % fmt)
+            continue
+        except Exception as e:
+            res.violation("C12:reserved-name:%s:raises:%s" % (fmt, err_kind(e)), "constructing a %s of pool %r raises %s" % (fmt, R, type(e).__name__), case)
+            continue
+        try:
+            back = dm.Delegations.from_json(json_str=ds.to_json(), atype=T)
+            same = delegs_canon(back, cl) == delegs_canon(ds, cl)
+        except Exception:
+            same = False
+        if not same:
+            res.violation("C12:codec:definition-of-pool-named-single-sentinel" if fmt == "PoolDefinition" else "C12:reserved-name:reference:lost",
+                          "a %s of a pool named %r is accepted and does not survive the round trip" % (fmt, R), case)
+    fam = [{"ty": cty, "id": R, "deleg": "del1", "on": "n1", "for": ["n2"], "det": det, "mode": "ctor"}]
+    for path in ("ctor", "set", "renamed"):
+        case = {"kind": "pools", "cty": cty, "family": [dict(fam[0], mode="set" if path == "set" else "ctor")], "path": path}
+        try:
+            if path == "renamed":
+                # the name assigned after construction: add_pool is the last gate
+                p = build_pool(dict(fam[0], id="tmp"), dm, cl)
+                p.pool_id = R
+                ps = dm.Pools(atype=T)
+                ps.add_pool(pool=p)
+                ps.build_index_by_delegation_id()
+            else:
+                ps = build_family(cty, case["family"], dm, cl)
+        except dm.PoolException:
+            res.count("reserved:pool-%s:rejected" % path)
+            continue
+        except Exception as e:
+            res.violation("C12:reserved-name:pool-%s:raises:%s" % (path, err_kind(e)), "a pool named %r through %s raises %s" % (R, path, type(e).__name__), case)
+            continue
+        want = pools_canon(ps, cl)
+        try:
+            q = dm.Pools(atype=T)
+            for n, ds in ps.generate_delegations_by_node_id().items():
+                q.incorporate_delegation(node_id=n, deleg=dm.Delegations.from_json(json_str=ds.to_json(), atype=T))
+            same = pools_canon(q, cl) == want
+        except Exception:
+            same = False
+        if not same:
+            res.violation("C12:pools:pool-named-single-sentinel", "a pool named %r is accepted (%s) and is not read back" % (R, path), case)
+
+
 def check_call(cty, shape, res):
     """one add_delegations(*args) call: a duplicate id (two arguments of the call, or an argument and the container) and an
     argument of the other type are rejected wherever they stand; a call without either is accepted and stores every argument"""
@@ -908,9 +1122,6 @@ def check_call(cty, shape, res):
 
 
 CONTENTS = ["own", "other", "both", "none"]
-FORMATS = ["SinglePool", "PoolDefinition", "PoolReference"]
-
-
 def matrix_verdict(fmt, content):
     """Expected verdict from the property text: 'mixing label and capacity content ... or details on a reference are always
     rejected'; a single-resource delegation / pool definition with details of its own type is the well-formed case.
@@ -1076,6 +1287,14 @@ def check_pools(cty, fam, res, order_rng=None):
     try:
         ps = build_family(cty, fam, dm, cl)
         ps.validate_pools()
+    except dm.PoolException as e:
+        if any(p["id"] == K.SINGLE_POOL_NAME for p in fam):
+            # a pool cannot carry the name reserved for single-resource delegations (repaired, /repo ac819ce); had it
+            # been accepted, it would have to be read back (below)
+            res.count("pools:reserved-pool-name-rejected")
+            return
+        res.violation("C12:pools:valid-family-rejected:" + err_kind(e), "a valid pool family is rejected by add_pool/build_index/validate: %s" % e, case)
+        return
     except Exception as e:
         res.violation("C12:pools:valid-family-rejected:" + err_kind(e), "a valid pool family is rejected by add_pool/build_index/validate: %s" % e, case)
         return
@@ -1241,7 +1460,10 @@ def run_case(case, res):
     elif k == "reject":
         check_rejections(case["cty"], case["det"], case["odet"], res)
     elif k == "pools":
-        check_pools(case["cty"], case["family"], res)
+        if case.get("path"):
+            check_reserved(case["cty"], res)
+        else:
+            check_pools(case["cty"], case["family"], res)
     elif k == "dec":
         check_dec_verdict(case["cty"], case["obj"], res)
     elif k == "specs":
@@ -1297,6 +1519,8 @@ def oracle(ctx, res, n=None):
     for cty in TYPES:
         res.evaluations += len(FORMATS) * len(CONTENTS) * 2
         check_matrix(cty, res)
+        res.evaluations += 5
+        check_reserved(cty, res)
     for cty in TYPES:
         for shape in call_shapes():
             res.evaluations += 1
